@@ -185,8 +185,16 @@ def make_repl(rng, pat, kind):
             els = [sub[pels[0]]] + pels[1:]
             for i in range(1, n):
                 pos[i] = pos[i] + v
+    if kind in ("identical", "keep_first_replace_rest", "larger_keep_first", "keep_rest_replace_first", "keep_last_only") and rng.integers(3) == 0 and len(pos):
+        # the replacement as another program wrote it: every coordinate carries the noise of the last printed digits (< 5e-7 A, either
+        # sign, far below the 1e-5 A within which an atom is common to both patterns) - the same atoms are common as without it
+        pos = [p + rng.uniform(-4e-7, 4e-7, 3) for p in pos]
+        AS_WRITTEN[0] += 1
     order = rng.permutation(len(els))
     return {"kind": kind, "elements": [els[i] for i in order], "positions": np.array([pos[i] for i in order], float).reshape(-1, 3)}
+
+
+AS_WRITTEN = [0]
 
 
 def judge_call(ctx, st, case, S, P, R, pat, rep, mm, label=""):
@@ -278,7 +286,10 @@ def run_case(case, ctx):
     rng = np.random.default_rng(case["s"])
     st = ctx.stats
     pat, S = build(rng, case)
+    n_aw = AS_WRITTEN[0]
     rep = make_repl(rng, pat, case["repl"])
+    if AS_WRITTEN[0] > n_aw:
+        st.count("replacements_whose_common_atoms_differ_by_print_noise")
     from vmon.gen import patterns
     P, R = patterns.to_atoms(pat), replcase.rep_to_atoms(rep)
     if case["s"] % 3 == 1:
@@ -330,6 +341,8 @@ def requirements(stats, tier):
         need.append("no search pattern of more than 256 atoms observed")
     if stats.get("pattern_pairs_with_differing_type_labels") < (50 if tier == "quick" else 5000):
         need.append("pattern pairs with differing type labels: %d" % stats.get("pattern_pairs_with_differing_type_labels"))
+    if stats.get("replacements_whose_common_atoms_differ_by_print_noise") < (20 if tier == "quick" else 2000):
+        need.append("replacements whose common atoms differ by print noise: %d" % stats.get("replacements_whose_common_atoms_differ_by_print_noise"))
     if stats.nseen("topology") < 5 or stats.nseen("repl") < len(REPLS):
         need.append("not all topologies / replacement kinds observed")
     return need
